@@ -221,7 +221,14 @@ inductive Step : Bool → Cfg → Label → Cfg → Prop where
   | complete (ab nn g res ch rest v) (h : forestVals ch = some v) :
       Step ab (.cons nn g res .run ch rest) (.continue [0]) (.cons nn g res (.done v) ch rest)
   /-- one awaited child raised (`gather` re-raises the first exception; the siblings are
-  abandoned: `gather_with_cancel` cancels them, see `cancel`) -/
+  abandoned: `gather_with_cancel` cancels them, see `cancel`).  The model settles the parent at
+  once and delivers the cancellations afterwards, a superset of both `gather_with_cancel`
+  (cancel, *wait until the cancelled siblings have finished*, re-raise) and of a synchronous
+  failure (`settle_in_background`: no cancellation at all).  Consequently "a cancelled sibling
+  has finished unwinding before the parent completes" is NOT expressed by `Step`; in the model
+  a cancelled or abandoned task simply does not count as live work (`liveQuiet`).  That the
+  implementation awaits the siblings it cancels is checked by the harness oracle (C03 serial
+  clause, strict reading), not proved here. -/
   | fail (ab nn g res ch rest) (h : hasFailed ch = true) :
       Step ab (.cons nn g res .run ch rest) (.continue [0]) (.cons nn g res (errSt nn) ch rest)
   /-- a cancellation is delivered to an abandoned, still active member -/
